@@ -197,6 +197,11 @@ def basis_spline(  # pylint: disable=dangerous-default-value  # always replaced 
                     else (x <= knots[i + 1])  # Properly handle boundary
                 )
             ).astype(float)
+    if degree == 0:
+        # Indicator columns turn null values into zeros; propagate nulls instead
+        # (for higher degrees the recursion below does so already).
+        for i in cache[0]:
+            cache[0][i] = numpy.where(numpy.isnan(x), numpy.nan, cache[0][i])  # type: ignore
     for d in range(1, degree + 1):
         cache[d % 2].clear()
         for i in range(len(knots) - d - 1):
